@@ -19,9 +19,10 @@ def stage(fn, *a, **kw):
     return f
 
 
-def sized(prop, tier, name, ops, nslots, nblocks, frames, hows=("new", "newB", "unique"), simulate=None):
+def sized(prop, tier, name, ops, nslots, nblocks, frames, hows=("new", "newB", "unique"), simulate=None, harness_cfg="a"):
     cfg = S.sized_cfg(ops, nslots, nblocks, frames, list(hows))
-    return stage(S.graph_replay, prop, tier, name, "sized", "MC_Sized.tla", SIZED_MODULES, cfg, nslots, simulate=simulate)
+    return stage(S.graph_replay, prop, tier, name, "sized", "MC_Sized.tla", SIZED_MODULES, cfg, nslots, simulate=simulate,
+                 harness_cfg=harness_cfg)
 
 
 ALL_SIZED = BASE + CONV + BORROW + UNIQ + COW + UNWRAP
@@ -41,6 +42,15 @@ def mm(prop, tier, name, configs):
 def tr(prop, tier, name, seed):
     runs, nops = (200, 30) if tier == "quick" else (4000, 40)
     return stage(M.trace_stage, prop, tier, name, seed, runs, nops)
+
+
+def long_walks(prop, tier, seed):
+    """long histories with many live handles: 12-16 slots, 30-40 blocks, frame depth 3, depth 300-400"""
+    ns, nb, n, d = (12, 30, 20, 300) if tier == "quick" else (16, 40, 400, 400)
+    return [sized(prop, tier, "sized_long_walks_" + tier[0], ALL_SIZED, ns, nb, 3, hows=("new", "newB", "unique", "from", "box"), simulate=(n, d, seed + 1)),
+            thin(prop, tier, "thin_long_walks_" + tier[0], THIN_OPS, ns, nb, 3, 3, simulate=(n, d, seed + 2)),
+            slices(prop, tier, "slices_long_walks_" + tier[0], ns, nb, 3, simulate=(n, d, seed + 3)),
+            uninit(prop, tier, "uninit_long_walks_" + tier[0], ns, nb, 4, simulate=(n, d, seed + 4))]
 
 
 def c02(tier, seed):
@@ -166,13 +176,16 @@ def c01(tier, seed):
                 walks("C01", tier, seed),
                 thin("C01", tier, "thin_life_q", THIN_OPS, 3, 2, 1, 1),
                 slices("C01", tier, "slices_life_q", 3, 2, 2),
-                mm("C01", tier, "mm_clone_drop_q", [("c01_2x3", ["clone", "read", "drop"], 2, 3, 2, False)])]
+                # the same graph against the no_std build of the crate (configuration B)
+                sized("C01", tier, "sized_life_nostd_q", BASE + CONV_CORE + ["Borrow", "Enter", "Exit", "TryUnique", "MakeMut", "TryUnwrap"], 3, 2, 1, harness_cfg="b"),
+                mm("C01", tier, "mm_clone_drop_q", [("c01_2x3", ["clone", "read", "drop"], 2, 3, 2, False)])] + long_walks("C01", tier, seed)
     return [sized("C01", tier, "sized_life_t", BASE + CONV + BORROW + ["TryUnique"], 4, 2, 2),
             sized("C01", tier, "sized_life_t5", BASE + CONV_CORE + ["Enter", "Exit"], 5, 2, 1, hows=("new", "newB")),
             walks("C01", tier, seed),
             thin("C01", tier, "thin_life_t", THIN_OPS, 4, 2, 2, 2),
             slices("C01", tier, "slices_life_t", 4, 2, 2), slices("C01", tier, "slices_walks_t", 6, 4, 3, simulate=(5000, 60, seed)),
-            mm("C01", tier, "mm_clone_drop_t", [("c01_2x3", ["clone", "read", "drop"], 2, 3, 2, False), ("c01_3x3", ["clone", "read", "drop"], 3, 3, 1, False)])]
+            sized("C01", tier, "sized_life_nostd_t", BASE + CONV + BORROW + UNIQ + COW + UNWRAP, 3, 2, 1, harness_cfg="b"),
+            mm("C01", tier, "mm_clone_drop_t", [("c01_2x3", ["clone", "read", "drop"], 2, 3, 2, False), ("c01_3x3", ["clone", "read", "drop"], 3, 3, 1, False)])] + long_walks("C01", tier, seed)
 
 
 def c03(tier, seed):
@@ -193,10 +206,10 @@ def c04(tier, seed):
     if tier == "quick":
         return [sized("C04", tier, "sized_count_q", ops, 3, 2, 1), walks("C04", tier, seed),
                 thin("C04", tier, "thin_count_q", THIN_OPS, 3, 2, 1, 1), slices("C04", tier, "slices_count_q", 3, 2, 2),
-                tr("C04", tier, "threads_q", seed), stage(AP.ind_stage, "C04", tier, "apalache_inductive_q")]
+                tr("C04", tier, "threads_q", seed), stage(AP.ind_stage, "C04", tier, "apalache_inductive_q")] + long_walks("C04", tier, seed)
     return [sized("C04", tier, "sized_count_t", ops, 4, 2, 2), walks("C04", tier, seed),
             thin("C04", tier, "thin_count_t", THIN_OPS, 4, 2, 2, 2), slices("C04", tier, "slices_count_t", 4, 2, 2),
-            tr("C04", tier, "threads_t", seed), stage(AP.ind_stage, "C04", tier, "apalache_inductive_t")]
+            tr("C04", tier, "threads_t", seed), stage(AP.ind_stage, "C04", tier, "apalache_inductive_t")] + long_walks("C04", tier, seed)
 
 
 def c08(tier, seed):
